@@ -3,13 +3,25 @@ package main
 import (
 	"fmt"
 
-	_ "0chain.net/chaincore/chain"
-	"0chain.net/core/util/orderbuffer"
-	_ "0chain.net/smartcontract/storagesc"
+	"0chain.net/smartcontract/partitions"
+	"verifharness/sc"
 )
 
+type it struct{ ID string }
+
+func (i *it) GetID() string                      { return i.ID }
+func (i *it) MarshalMsg(b []byte) ([]byte, error) { return append(b, []byte(i.ID)...), nil }
+func (i *it) UnmarshalMsg(b []byte) ([]byte, error) {
+	i.ID = string(b)
+	return nil, nil
+}
+func (i *it) Msgsize() int { return len(i.ID) }
+
 func main() {
-	b := orderbuffer.New(3)
-	b.Add(1, "x")
-	fmt.Println("ok")
+	mpt := sc.NewMPT()
+	ctx := sc.NewCtx(mpt, 5, nil)
+	p, err := partitions.CreateIfNotExists(ctx, "parts", 2)
+	fmt.Println(p != nil, err)
+	sc.SetBalance(ctx, "abc", 10)
+	fmt.Println(sc.Balance(ctx, "abc"))
 }
